@@ -160,12 +160,20 @@ PegDen(pl, o, a) == P!Pow10(pl.dec[o])
 MargNum(pl, o, a) == LET xs == Norm(pl, pl.res, One) IN BMul(P!MarginalNum(Ann(pl), xs, P!RootFloor(Ann(pl), xs), o, a), PegNum(pl, o, a))
 MargDen(pl, o, a) == LET xs == Norm(pl, pl.res, One) IN BMul(P!MarginalDen(Ann(pl), xs, P!RootFloor(Ann(pl), xs), o, a), PegDen(pl, o, a))
 Slack(net) == BAdd(Two, BDiv(net, BNat(1000000000)))      \* two units + 1e-9 relative, for the fixed point truncations
+(* constant product: the pre-trade pool price is the 18-digit fixed point ratio of the reserves (as the API exposes prices),
+   the expected return is floor(offer * price); the trade is within tolerance iff (expected - net) / expected <= tol,
+   compared as 18-digit fixed point numbers (one ulp allowed). No unit slack: a one-unit excess on a dust trade is a violation. *)
+CpExpected(pl, o, a, dx) == BDiv(BMul(dx, BDiv(BMul(pl.res[a], Dec18), pl.res[o])), Dec18)
+CpWithin(pl, o, a, dx, net, tol) ==
+  LET ex == CpExpected(pl, o, a, dx) IN BLt(BMul(BSub(ex, net), Dec18), BMul(BAdd(tol, One), ex)) \/ BLe(ex, net)
+CpBeyond(pl, o, a, dx, net, tol) ==
+  LET ex == CpExpected(pl, o, a, dx) IN BLt(BMul(BSub(tol, One), ex), BMul(BSub(ex, net), Dec18))
 SwapAllowedNoBelief(pl, o, a, dx, net, tol) ==
-  IF pl.kind = "cp" THEN LossWithin(net, dx, pl.res[a], pl.res[o], tol, Slack(net))
+  IF pl.kind = "cp" THEN CpWithin(pl, o, a, dx, net, tol)
   ELSE \/ LossWithin(net, dx, PegNum(pl, o, a), PegDen(pl, o, a), tol, Slack(net))
        \/ (AllPositive(pl.res) /\ LossWithin(net, dx, MargNum(pl, o, a), MargDen(pl, o, a), tol, Slack(net)))
 SwapRejectedRightlyNoBelief(pl, o, a, dx, net, tol) ==
-  IF pl.kind = "cp" THEN LossAtLeast(net, dx, pl.res[a], pl.res[o], tol, Slack(net))
+  IF pl.kind = "cp" THEN CpBeyond(pl, o, a, dx, net, tol)
   ELSE \/ LossAtLeast(net, dx, PegNum(pl, o, a), PegDen(pl, o, a), tol, Slack(net))
        \/ (AllPositive(pl.res) /\ LossAtLeast(net, dx, MargNum(pl, o, a), MargDen(pl, o, a), tol, Slack(net)))
 Expected(dx, belief) == BDiv(BMul(dx, Dec18), belief)
@@ -380,6 +388,8 @@ JudgeProvideSingle(s, e, p) ==
        C04_single_fee_floors   |-> G(good, FeesOK(pl, r)),
        C03_single_invariant_non_decreasing |-> GK(good, InvariantOK(pl, resMid), F7(pl, resMid, a)),
        C13_single_swap_within_tolerance |-> G(good /\ half # Z, SwapAllowedNoBelief(pl, o, a, half, q.ret, Tol(e.swap_slip))),
+       C13_single_deposit_ratio_within_tolerance |-> G(good /\ e.liq_slip.set /\ pl.kind = "cp" /\ BLe(e.liq_slip.v, Dec18) /\ AllPositive(resMid),
+                                                       DepositRatioWithin(dep, resMid, e.liq_slip.v)),
        C20_pool_rejected_noop  |-> G(~e.ok, Unchanged(s, p)) ]
      @@ (IF good THEN LET core == JudgeDepositCore(s, e, p, plMid, resMid, pl.supply, dep, preT, <<>>)
                       IN core @@ [ C14_equals_swap_half_then_deposit |->
